@@ -1,8 +1,9 @@
 (** Semantic facts about inlining, on the executable 6502 semantics of [M6502/Sem.v]:
 
     (A) renaming the local labels of a piece of code injectively does not change its behaviour
-        (up to the trace events of the renamed branch/JMP instructions, whose [protected] flag
-        the renaming clears and whose raw operand text it changes);
+        (the renaming keeps the [protected] flag of every instruction, so that the two traces
+        have the same events in the same order; the only difference is the raw operand text
+        inside the events of the renamed, protected, branch/JMP instructions);
     (B) a closed piece of code whose labels are fresh behaves inside a larger code exactly as
         it behaves standalone, until it reaches its end;
     (C) the block that [push_code] appends to its destination executes like the body it was
@@ -70,6 +71,29 @@ Proof.
   cbn [rev filter]. rewrite filter_app, IH. cbn [filter].
   destruct (f a); cbn [rev]; [reflexivity|]. rewrite app_nil_r. reflexivity.
 Qed.
+
+Lemma Forall2_rev_intro : forall (A B : Type) (R : A -> B -> Prop) l l',
+  Forall2 R l l' -> Forall2 R (rev l) (rev l').
+Proof.
+  intros A B R l l' H. induction H as [|a b l l' Hab H IH]; [constructor|].
+  cbn [rev]. apply Forall2_app; [exact IH|]. constructor; [exact Hab|constructor].
+Qed.
+
+Lemma Forall2_eq_eq : forall (A : Type) (l l' : list A), Forall2 eq l l' -> l = l'.
+Proof.
+  intros A l l' H. induction H as [|a b l l' Hab H IH]; [reflexivity|]. rewrite Hab, IH. reflexivity.
+Qed.
+
+Lemma Forall2_mono : forall (A B : Type) (R R' : A -> B -> Prop) l l',
+  (forall a b, R a b -> R' a b) -> Forall2 R l l' -> Forall2 R' l l'.
+Proof.
+  intros A B R R' l l' HR H. induction H as [|a b l l' Hab H IH]; constructor;
+    [apply HR; exact Hab|exact IH].
+Qed.
+
+Lemma Forall2_same : forall (A : Type) (R : A -> A -> Prop) (l : list A),
+  (forall x, R x x) -> Forall2 R l l.
+Proof. intros A R l H. induction l as [|a l IH]; constructor; [apply H|exact IH]. Qed.
 
 Lemma filter_true : forall (A : Type) (l : list A), filter (fun _ => true) l = l.
 Proof. intros A l. induction l as [|a l IH]; [reflexivity|]. cbn [filter]. rewrite IH. reflexivity. Qed.
@@ -331,21 +355,111 @@ Print Assumptions run_runb.
 Definition evs (p : bool) (m : mnem) (raw : string) : list event :=
   if p then [EvI m raw] else [].
 
-(** events that survive the comparison of traces in (A): everything except the events of
-    branch/JMP instructions *)
+(** ** Relations between traces
+
+    [run] and [runb] are compared up to a relation [R] between events, applied pointwise: the two
+    traces have the same length and their events are related one by one, in order. *)
+
+(** the raw operand text of the event of a branch/JMP, erased *)
+Definition erase_jump_raw (e : event) : event :=
+  match e with
+  | EvI m raw => if renames_operand m then EvI m "" else e
+  | EvN _ => e
+  end.
+
+(** two events that differ at most in the raw operand text of a branch/JMP *)
+Definition ev_erase (e e' : event) : Prop := erase_jump_raw e = erase_jump_raw e'.
+
+(** [e'] is [e], or [e] is the event of a branch/JMP and [e'] is that event with its raw operand
+    text renamed by [r] *)
+Inductive ev_ren (r : string -> string) : event -> event -> Prop :=
+| er_same : forall e, ev_ren r e e
+| er_jump : forall m raw, renames_operand m = true -> ev_ren r (EvI m raw) (EvI m (r raw)).
+
+(** everything except the events of branch/JMP instructions (the comparison used when the
+    renaming cleared the protection of the renamed instructions; kept for the weak corollaries) *)
 Definition keep_nonjump (e : event) : bool :=
   match e with EvI m _ => negb (renames_operand m) | EvN _ => true end.
-Definition keep_all (e : event) : bool := true.
+
+(** the traces are equal once the raw text of the branch/JMP events is erased (same events, same
+    mnemonics, same order, same number) *)
+Definition same_erased (t t' : list event) : Prop := map erase_jump_raw t = map erase_jump_raw t'.
+(** the traces are equal once the branch/JMP events are removed altogether *)
+Definition same_nonjump (t t' : list event) : Prop := filter keep_nonjump t = filter keep_nonjump t'.
+
+Lemma ev_ren_erase : forall r e e', ev_ren r e e' -> ev_erase e e'.
+Proof.
+  intros r e e' H. destruct H as [e|m raw Hm]; [reflexivity|].
+  unfold ev_erase. cbn [erase_jump_raw]. rewrite Hm. reflexivity.
+Qed.
+
+Lemma Forall2_erase_map : forall t t', Forall2 ev_erase t t' <-> same_erased t t'.
+Proof.
+  intros t t'. unfold same_erased. split.
+  - intros H. induction H as [|a b l l' Hab H IH]; [reflexivity|].
+    cbn [map]. rewrite Hab, IH. reflexivity.
+  - revert t'. induction t as [|a t IH]; intros [|b t'] H; cbn [map] in H;
+      try discriminate H; constructor.
+    + injection H as H _. exact H.
+    + apply IH. injection H as _ H. exact H.
+Qed.
+
+Lemma erase_keep_nonjump : forall e e', ev_erase e e' ->
+  keep_nonjump e = keep_nonjump e' /\ (keep_nonjump e = true -> e = e').
+Proof.
+  intros e e' H. unfold ev_erase in H.
+  destruct e as [m raw|t]; destruct e' as [m' raw'|t']; cbn [erase_jump_raw] in H.
+  - assert (Hm : m = m').
+    { destruct (renames_operand m); destruct (renames_operand m'); congruence. }
+    subst m'. cbn [keep_nonjump]. destruct (renames_operand m) eqn:Em.
+    + split; [reflexivity|intros Hk; discriminate Hk].
+    + split; [reflexivity|intros _; exact H].
+  - destruct (renames_operand m); discriminate H.
+  - destruct (renames_operand m'); discriminate H.
+  - split; [reflexivity|intros _; exact H].
+Qed.
+
+Lemma same_erased_nonjump : forall t t', same_erased t t' -> same_nonjump t t'.
+Proof.
+  intros t t' H. apply Forall2_erase_map in H. unfold same_nonjump.
+  induction H as [|a b l l' Hab H IH]; [reflexivity|].
+  cbn [filter]. destruct (erase_keep_nonjump a b Hab) as [Hk He]. rewrite <- Hk.
+  destruct (keep_nonjump a); [|exact IH]. rewrite (He eq_refl), IH. reflexivity.
+Qed.
+
+Lemma same_erased_length : forall t t', same_erased t t' -> length t = length t'.
+Proof.
+  intros t t' H. apply (f_equal (@length event)) in H. rewrite !map_length in H. exact H.
+Qed.
+
+(** outcomes: same kind, same machine state, same cycles, same fault; traces related by [T] *)
+Definition outcome_rel (T : list event -> list event -> Prop) (o o' : outcome) : Prop :=
+  match o, o' with
+  | Halt s t cy, Halt s' t' cy' => s = s' /\ cy = cy' /\ T t t'
+  | OutOfFuel s t cy, OutOfFuel s' t' cy' => s = s' /\ cy = cy' /\ T t t'
+  | Faulted w f p s, Faulted w' f' p' s' => w = w' /\ f = f' /\ p = p' /\ s = s'
+  | _, _ => False
+  end.
+
+Lemma outcome_rel_mono : forall (T T' : list event -> list event -> Prop) o o',
+  (forall t t', T t t' -> T' t t') -> outcome_rel T o o' -> outcome_rel T' o o'.
+Proof.
+  intros T T' [s t cy|s t cy|w f p s] [s' t' cy'|s' t' cy'|w' f' p' s'] HT H; cbn in H |- *;
+    try contradiction; try exact H.
+  - destruct H as [Hs [Hc Ht]]. repeat split; try assumption. apply HT. exact Ht.
+  - destruct H as [Hs [Hc Ht]]. repeat split; try assumption. apply HT. exact Ht.
+Qed.
 
 Section Sim.
   Variable cfg : config.
   Variable prog : sprogram.
   Variable inl_sem : string -> mstate -> option mstate.
   Variable ext_call : string -> mstate -> option mstate.
-  (** which events are compared *)
-  Variable keep : event -> bool.
+  (** how events are compared *)
+  Variable R : event -> event -> Prop.
+  Hypothesis R_refl : forall e, R e e.
 
-  Definition tsim (t t' : list event) : Prop := filter keep t = filter keep t'.
+  Definition tsim (t t' : list event) : Prop := Forall2 R t t'.
 
   (** operands: equal, except that the label operands of a branch/JMP may differ provided they
       denote the same position *)
@@ -371,13 +485,7 @@ Section Sim.
 
   Definition stack_sim (st st' : list frame) : Prop := Forall2 frame_sim st st'.
 
-  Definition outcome_sim (o o' : outcome) : Prop :=
-    match o, o' with
-    | Halt s t cy, Halt s' t' cy' => s = s' /\ cy = cy' /\ tsim t t'
-    | OutOfFuel s t cy, OutOfFuel s' t' cy' => s = s' /\ cy = cy' /\ tsim t t'
-    | Faulted w f p s, Faulted w' f' p' s' => w = w' /\ f = f' /\ p = p' /\ s = s'
-    | _, _ => False
-    end.
+  Definition outcome_sim (o o' : outcome) : Prop := outcome_rel tsim o o'.
 
   Definition bres_sim (r r' : bres) : Prop :=
     match r, r' with
@@ -398,11 +506,14 @@ Section Sim.
       sres_sim (SLeave fn c pc st s tr cy) (SLeave fn c' pc st' s tr' cy)
   | rs_fault : forall d w fn pc s, sres_sim (SFault d w fn pc s) (SFault d w fn pc s).
 
+  Lemma tsim_refl : forall t, tsim t t.
+  Proof. intros t. apply Forall2_same. exact R_refl. Qed.
+
   Lemma tsim_rev : forall t t', tsim t t' -> tsim (rev t) (rev t').
-  Proof. intros t t' H. unfold tsim in *. rewrite !filter_rev_eq, H. reflexivity. Qed.
+  Proof. intros t t' H. apply Forall2_rev_intro. exact H. Qed.
 
   Lemma tsim_cons : forall e t t', tsim t t' -> tsim (e :: t) (e :: t').
-  Proof. intros e t t' H. unfold tsim in *. cbn [filter]. rewrite H. reflexivity. Qed.
+  Proof. intros e t t' H. constructor; [apply R_refl|exact H]. Qed.
 
   Lemma tsim_evs : forall p p' m raw raw' t t',
     tsim (evs p m raw) (evs p' m raw') -> tsim t t' ->
@@ -411,7 +522,7 @@ Section Sim.
     intros p p' m raw raw' t t' He Ht.
     assert (E : forall (q : bool) r u, (if q then EvI m r :: u else u) = evs q m r ++ u)
       by (intros [|] r u; reflexivity).
-    rewrite !E. unfold tsim in *. rewrite !filter_app, He, Ht. reflexivity.
+    rewrite !E. apply Forall2_app; assumption.
   Qed.
 
   Lemma out_of_sim : forall r r', bres_sim r r' -> outcome_sim (out_of r) (out_of r').
@@ -426,7 +537,7 @@ Section Sim.
   Proof.
     intros c. apply Forall2_refl_in. intros x _.
     destruct x as [l|m o p raw|t|]; constructor.
-    - reflexivity.
+    - apply tsim_refl.
     - unfold op_sim. destruct o; try reflexivity. destruct (renames_operand m); reflexivity.
   Qed.
 
@@ -541,12 +652,12 @@ Print Assumptions run_sim.
 Definition rename_op (r : string -> string) (o : operand) : operand :=
   match o with OLbl l => OLbl (r l) | _ => o end.
 
-(** the semantic counterpart of [rename_line]: labels, and the label operand, the [protected]
-    flag and the raw operand text of branches and [JMP]s (not of [JSR]) *)
+(** the semantic counterpart of [rename_line]: labels, and the label operand and the raw operand
+    text of branches and [JMP]s (not of [JSR]); the [protected] flag is kept *)
 Definition rename_sline (r : string -> string) (x : sline) : sline :=
   match x with
   | SLbl l => SLbl (r l)
-  | SIns m o p raw => if renames_operand m then SIns m (rename_op r o) false (r raw) else x
+  | SIns m o p raw => if renames_operand m then SIns m (rename_op r o) p (r raw) else x
   | _ => x
   end.
 
@@ -611,15 +722,16 @@ Section Rename.
   Notation runbx := (runb cfg prog inl_sem ext_call).
   Notation runx := (run cfg prog inl_sem ext_call).
 
-  (** a renamed code simulates the original; the events of branches and [JMP]s are ignored
-      unless no such instruction is protected *)
-  Lemma rename_code_sim_gen : forall keep r c,
+  (** a renamed code simulates the original, for every reflexive comparison of events that
+      relates the event of a protected branch/JMP to the same event with the renamed text *)
+  Lemma rename_code_sim_gen : forall (R : event -> event -> Prop) r c,
+    (forall e, R e e) ->
     inj_on r c ->
     (forall m o p raw, In (SIns m o p raw) c -> renames_operand m = true ->
-                       tsim keep (evs p m raw) (evs false m (r raw))) ->
-    code_sim keep c (map (rename_sline r) c).
+                       tsim R (evs p m raw) (evs p m (r raw))) ->
+    code_sim R c (map (rename_sline r) c).
   Proof.
-    intros keep r c Hinj Hev. unfold code_sim. apply Forall2_map_same. intros x Hx.
+    intros R r c Hrefl Hinj Hev. unfold code_sim. apply Forall2_map_same. intros x Hx.
     destruct x as [l|m o p raw|t|]; cbn [rename_sline]; try constructor.
     destruct (renames_operand m) eqn:Em.
     - constructor; [apply (Hev m o p raw Hx Em)|].
@@ -627,47 +739,79 @@ Section Rename.
       rewrite Em. symmetry. apply find_label_rename.
       intros l0 H0 Hr. apply Hinj; [apply in_or_app; left; exact H0| |exact Hr].
       apply in_or_app. right. apply (in_stargets c m l p raw Hx Em).
-    - constructor; [reflexivity|].
+    - constructor; [apply tsim_refl; exact Hrefl|].
       unfold op_sim. destruct o; try reflexivity. rewrite Em. reflexivity.
   Qed.
 
   Theorem rename_code_sim : forall r c,
-    inj_on r c -> code_sim keep_nonjump c (map (rename_sline r) c).
+    inj_on r c -> code_sim (ev_ren r) c (map (rename_sline r) c).
   Proof.
-    intros r c Hinj. apply rename_code_sim_gen; [exact Hinj|].
-    intros m o p raw _ Hm. unfold tsim, evs. destruct p; cbn [filter keep_nonjump]; [|reflexivity].
-    rewrite Hm. reflexivity.
+    intros r c Hinj. apply rename_code_sim_gen; [apply er_same|exact Hinj|].
+    intros m o p raw _ Hm. unfold tsim, evs. destruct p; constructor; [|constructor].
+    apply er_jump. exact Hm.
   Qed.
 
   Theorem rename_code_sim_strict : forall r c,
-    inj_on r c -> unprot_jumps c -> code_sim keep_all c (map (rename_sline r) c).
+    inj_on r c -> unprot_jumps c -> code_sim eq c (map (rename_sline r) c).
   Proof.
-    intros r c Hinj Hup. apply rename_code_sim_gen; [exact Hinj|].
-    intros m o p raw Hin Hm. rewrite (Hup m o p raw Hin Hm). reflexivity.
+    intros r c Hinj Hup. apply rename_code_sim_gen; [reflexivity|exact Hinj|].
+    intros m o p raw Hin Hm. rewrite (Hup m o p raw Hin Hm). constructor.
   Qed.
 
   (** (A), general form: same kind of outcome, same machine state, same cycles, same fault;
-      traces equal once the events of branches and [JMP]s are erased *)
+      the two traces have the same events in the same order, except that the raw operand text in
+      the event of a (protected) branch/JMP of [c] is renamed by [r] *)
   Theorem run_rename : forall r c, inj_on r c ->
     forall fuel fname pc stack s tr cy,
-    outcome_sim keep_nonjump
+    outcome_sim (ev_ren r)
       (runx fuel fname c pc stack s tr cy)
       (runx fuel fname (map (rename_sline r) c) pc stack s tr cy).
   Proof.
     intros r c Hinj fuel fname pc stack s tr cy. apply run_sim.
+    - apply er_same.
     - apply rename_code_sim. exact Hinj.
-    - apply stack_sim_refl.
-    - reflexivity.
+    - apply stack_sim_refl. apply er_same.
+    - apply tsim_refl. apply er_same.
   Qed.
 
-  Lemma outcome_sim_all_eq : forall o o', outcome_sim keep_all o o' -> o = o'.
+  Lemma tsim_ren_erased : forall r t t', tsim (ev_ren r) t t' -> same_erased t t'.
+  Proof.
+    intros r t t' H. apply Forall2_erase_map.
+    apply (Forall2_mono _ _ (ev_ren r) ev_erase t t' (ev_ren_erase r) H).
+  Qed.
+
+  (** corollary: the traces are equal once the raw operand text of the branch/JMP events is
+      erased (in particular they have the same length) *)
+  Theorem run_rename_erased : forall r c, inj_on r c ->
+    forall fuel fname pc stack s tr cy,
+    outcome_rel same_erased
+      (runx fuel fname c pc stack s tr cy)
+      (runx fuel fname (map (rename_sline r) c) pc stack s tr cy).
+  Proof.
+    intros r c Hinj fuel fname pc stack s tr cy.
+    apply (outcome_rel_mono (tsim (ev_ren r))); [apply tsim_ren_erased|].
+    apply run_rename. exact Hinj.
+  Qed.
+
+  (** corollary (the former, weaker, statement): the traces are equal once the events of
+      branches and [JMP]s are removed *)
+  Theorem run_rename_weak : forall r c, inj_on r c ->
+    forall fuel fname pc stack s tr cy,
+    outcome_rel same_nonjump
+      (runx fuel fname c pc stack s tr cy)
+      (runx fuel fname (map (rename_sline r) c) pc stack s tr cy).
+  Proof.
+    intros r c Hinj fuel fname pc stack s tr cy.
+    apply (outcome_rel_mono same_erased); [apply same_erased_nonjump|].
+    apply run_rename_erased. exact Hinj.
+  Qed.
+
+  Lemma outcome_sim_all_eq : forall o o', outcome_sim eq o o' -> o = o'.
   Proof.
     intros [s t cy|s t cy|w f p s] [s' t' cy'|s' t' cy'|w' f' p' s'] H; cbn in H;
       try contradiction.
-    - destruct H as [-> [-> H]]. unfold tsim in H. unfold keep_all in H.
-      rewrite !filter_true in H. subst t'. reflexivity.
-    - destruct H as [-> [-> H]]. unfold tsim in H. unfold keep_all in H.
-      rewrite !filter_true in H. subst t'. reflexivity.
+    - destruct H as [-> [-> H]]. apply Forall2_eq_eq in H. subst t'. reflexivity.
+    - destruct H as [-> [-> H]]. apply Forall2_eq_eq in H. subst t'. reflexivity.
     - destruct H as [-> [-> [-> ->]]]. reflexivity.
   Qed.
 
@@ -679,30 +823,52 @@ Section Rename.
   Proof.
     intros r c Hinj Hup fuel fname pc stack s tr cy. symmetry. apply outcome_sim_all_eq.
     apply run_sim.
-    - apply rename_code_sim_strict; assumption.
-    - apply stack_sim_refl.
     - reflexivity.
+    - apply rename_code_sim_strict; assumption.
+    - apply stack_sim_refl. reflexivity.
+    - apply tsim_refl. reflexivity.
   Qed.
 
   (** the same for the standalone interpreter *)
   Theorem runb_rename : forall r c, inj_on r c ->
     forall fuel fname pc stack d s tr cy,
-    bres_sim keep_nonjump
+    bres_sim (ev_ren r)
       (runbx fuel fname c pc stack d s tr cy)
       (runbx fuel fname (map (rename_sline r) c) pc stack d s tr cy).
   Proof.
     intros r c Hinj fuel fname pc stack d s tr cy. apply runb_sim.
+    - apply er_same.
     - apply rename_code_sim. exact Hinj.
-    - apply stack_sim_refl.
-    - reflexivity.
+    - apply stack_sim_refl. apply er_same.
+    - apply tsim_refl. apply er_same.
+  Qed.
+
+  (** ... whose end result, in particular: when the body reaches its end, the renamed body
+      reaches its end with the same fuel left, state and cycles, and a trace that differs only in
+      the raw text of branch/JMP events *)
+  Theorem runb_rename_end : forall r c, inj_on r c ->
+    forall fuel fname pc stack d s tr cy f s' tr' cy',
+    runbx fuel fname c pc stack d s tr cy = BEnd f s' tr' cy' ->
+    exists tr'', runbx fuel fname (map (rename_sline r) c) pc stack d s tr cy = BEnd f s' tr'' cy'
+                 /\ tsim (ev_ren r) tr' tr'' /\ same_erased tr' tr''.
+  Proof.
+    intros r c Hinj fuel fname pc stack d s tr cy f s' tr' cy' H.
+    pose proof (runb_rename r c Hinj fuel fname pc stack d s tr cy) as HA. rewrite H in HA.
+    destruct (runbx fuel fname (map (rename_sline r) c) pc stack d s tr cy)
+      as [f2 s2 t2 cy2|w fn pc2 s2|o]; cbn [bres_sim] in HA; try contradiction.
+    destruct HA as [<- [<- [<- Ht]]]. exists t2. split; [reflexivity|]. split; [exact Ht|].
+    apply (tsim_ren_erased r). exact Ht.
   Qed.
 
 End Rename.
 Print Assumptions rename_code_sim.
 Print Assumptions rename_code_sim_strict.
 Print Assumptions run_rename.
+Print Assumptions run_rename_erased.
+Print Assumptions run_rename_weak.
 Print Assumptions run_rename_eq.
 Print Assumptions runb_rename.
+Print Assumptions runb_rename_end.
 
 (** * (A) Connection with the model of [append_code] *)
 
@@ -1066,37 +1232,52 @@ Section Inline.
   Notation runbx := (runb cfg prog inl_sem ext_call).
   Notation runx := (run cfg prog inl_sem ext_call).
 
-  (** (A) and (B) together, on semantic code: a block [blk'] that simulates [blk] (for the
-      events selected by [keep]), is closed and has fresh labels, put between [pre] and [post] *)
-  Definition block_spec (keep : event -> bool) (pre blk' post blk : list sline) : Prop :=
+  (** (A) and (B) together, on semantic code: a block [blk'] that simulates [blk] (traces
+      compared by [T]), is closed and has fresh labels, put between [pre] and [post] *)
+  Definition block_spec (T : list event -> list event -> Prop)
+             (pre blk' post blk : list sline) : Prop :=
     forall fname stack fuel s tr cy,
     match runbx fuel fname blk 0 stack 0 s tr cy with
     | BEnd f s' tr' cy' =>
-        exists tr'', filter keep tr'' = filter keep tr' /\
+        exists tr'', T tr' tr'' /\
           runx fuel fname (pre ++ blk' ++ post) (length pre) stack s tr cy
           = runx f fname (pre ++ blk' ++ post) (length pre + length blk') stack s' tr'' cy'
     | BFault0 w fn pc s' =>
         runx fuel fname (pre ++ blk' ++ post) (length pre) stack s tr cy
         = Faulted w fn (length pre + pc) s'
     | BOut o =>
-        outcome_sim keep o (runx fuel fname (pre ++ blk' ++ post) (length pre) stack s tr cy)
+        outcome_rel T o (runx fuel fname (pre ++ blk' ++ post) (length pre) stack s tr cy)
     end.
 
-  Theorem block_run : forall keep pre blk blk' post,
-    code_sim keep blk blk' -> sclosed blk' ->
-    (forall l, In l (slabels blk') -> ~ In l (slabels pre)) ->
-    block_spec keep pre blk' post blk.
+  Lemma block_spec_mono : forall (T T' : list event -> list event -> Prop) pre blk' post blk,
+    (forall t t', T t t' -> T' t t') ->
+    block_spec T pre blk' post blk -> block_spec T' pre blk' post blk.
   Proof.
-    intros keep pre blk blk' post Hsim Hcl Hfr fname stack fuel s tr cy.
-    pose proof (runb_sim cfg prog inl_sem ext_call keep fuel fname blk blk' 0 stack stack 0
-                         s tr tr cy Hsim (stack_sim_refl keep stack) eq_refl) as HA.
+    intros T T' pre blk' post blk HT H fname stack fuel s tr cy.
+    specialize (H fname stack fuel s tr cy).
+    destruct (runbx fuel fname blk 0 stack 0 s tr cy) as [f s1 t1 cy1|w fn pc s1|o].
+    - destruct H as [t2 [Ht H]]. exists t2. split; [apply HT; exact Ht|exact H].
+    - exact H.
+    - apply (outcome_rel_mono T T' _ _ HT H).
+  Qed.
+
+  Theorem block_run : forall (R : event -> event -> Prop) pre blk blk' post,
+    (forall e, R e e) ->
+    code_sim R blk blk' -> sclosed blk' ->
+    (forall l, In l (slabels blk') -> ~ In l (slabels pre)) ->
+    block_spec (tsim R) pre blk' post blk.
+  Proof.
+    intros R pre blk blk' post Hrefl Hsim Hcl Hfr fname stack fuel s tr cy.
+    pose proof (runb_sim cfg prog inl_sem ext_call R Hrefl fuel fname blk blk' 0 stack stack 0
+                         s tr tr cy Hsim (stack_sim_refl R Hrefl stack) (tsim_refl R Hrefl tr))
+      as HA.
     pose proof (embed_run cfg prog inl_sem ext_call fname pre blk' post stack Hcl Hfr
                           fuel 0 s tr cy (Nat.le_0_l _)) as HB.
     rewrite Nat.add_0_r in HB. unfold emb_res in HB.
     destruct (runbx fuel fname blk 0 stack 0 s tr cy) as [f s1 t1 cy1|w fn pc s1|o];
       destruct (runbx fuel fname blk' 0 stack 0 s tr cy) as [f' s1' t1' cy1'|w' fn' pc' s1'|o'];
       cbn [bres_sim] in HA; try contradiction.
-    - destruct HA as [-> [-> [-> Ht]]]. exists t1'. split; [symmetry; exact Ht|exact HB].
+    - destruct HA as [-> [-> [-> Ht]]]. exists t1'. split; [exact Ht|exact HB].
     - destruct HA as [-> [-> [-> ->]]]. exact HB.
     - rewrite HB. exact HA.
   Qed.
@@ -1143,7 +1324,8 @@ Section Inline.
       ([runb], depth 0, same fuel, function name, stack, state, trace, cycles), namely:
       - the body runs to its end (past [.endof]) with [f] steps left: the big code arrives just
         after the line [.endofinline<n>] with [f] steps left, the same machine state and cycles
-        and the same trace up to the events of branches/JMPs;
+        and the same trace up to the raw operand text (suffixed) of the events of the protected
+        branches/JMPs of the body;
       - fault in the body: same fault at the shifted line;
       - any other end: similar outcomes. *)
   Theorem push_code_run : forall (dst body : code) (n : N) (sd sb : list sline),
@@ -1155,7 +1337,7 @@ Section Inline.
     slines_of (push_code dst body n) = Some (sd ++ blk') /\
     nth_error (sd ++ blk') (length sd + length sb) = Some (SLbl (endof_label n)) /\
     length blk' = S (length sb) /\
-    forall post, block_spec keep_nonjump sd blk' post (sb ++ [SLbl ".endof"]).
+    forall post, block_spec (tsim (ev_ren (suffix_of n))) sd blk' post (sb ++ [SLbl ".endof"]).
   Proof.
     intros dst body n sd sb Hd Hb Hne Hcl Hfr blk'. split; [|split; [|split]].
     - apply push_code_slines; assumption.
@@ -1165,9 +1347,40 @@ Section Inline.
       rewrite map_length, Nat.sub_diag. reflexivity.
     - unfold blk'. rewrite map_length, app_length. cbn [length]. lia.
     - intros post. apply block_run.
+      + apply er_same.
       + apply rename_code_sim. apply suffix_inj_on.
       + apply (inlined_block_closed body sb n Hb Hcl).
       + apply (inlined_block_fresh dst sd _ n Hd Hfr).
+  Qed.
+
+  (** corollaries: the traces compared after erasing the raw operand text of branch/JMP events,
+      and (the former, weaker, statement) after removing these events *)
+  Theorem push_code_run_erased : forall (dst body : code) (n : N) (sd sb : list sline),
+    slines_of dst = Some sd -> slines_of body = Some sb ->
+    jump_ops_nonempty body ->
+    (forall t, In t (local_targets body) -> In t (all_labels body) \/ t = ".endof"%string) ->
+    (forall l, In l (all_labels dst) -> forall l0, l <> suffix_of n l0) ->
+    forall post,
+      block_spec same_erased sd (map (rename_sline (suffix_of n)) (sb ++ [SLbl ".endof"])) post
+                 (sb ++ [SLbl ".endof"]).
+  Proof.
+    intros dst body n sd sb Hd Hb Hne Hcl Hfr post.
+    apply (block_spec_mono (tsim (ev_ren (suffix_of n)))); [apply tsim_ren_erased|].
+    apply (push_code_run dst body n sd sb Hd Hb Hne Hcl Hfr).
+  Qed.
+
+  Theorem push_code_run_weak : forall (dst body : code) (n : N) (sd sb : list sline),
+    slines_of dst = Some sd -> slines_of body = Some sb ->
+    jump_ops_nonempty body ->
+    (forall t, In t (local_targets body) -> In t (all_labels body) \/ t = ".endof"%string) ->
+    (forall l, In l (all_labels dst) -> forall l0, l <> suffix_of n l0) ->
+    forall post,
+      block_spec same_nonjump sd (map (rename_sline (suffix_of n)) (sb ++ [SLbl ".endof"])) post
+                 (sb ++ [SLbl ".endof"]).
+  Proof.
+    intros dst body n sd sb Hd Hb Hne Hcl Hfr post.
+    apply (block_spec_mono same_erased); [apply same_erased_nonjump|].
+    apply (push_code_run_erased dst body n sd sb Hd Hb Hne Hcl Hfr).
   Qed.
 
   (** exact form of [block_spec], when all events are compared *)
@@ -1184,13 +1397,12 @@ Section Inline.
     end.
 
   Lemma block_spec_all : forall pre blk' post blk,
-    block_spec keep_all pre blk' post blk -> block_spec_eq pre blk' post blk.
+    block_spec (tsim eq) pre blk' post blk -> block_spec_eq pre blk' post blk.
   Proof.
     intros pre blk' post blk H fname stack fuel s tr cy.
     specialize (H fname stack fuel s tr cy).
     destruct (runbx fuel fname blk 0 stack 0 s tr cy) as [f s1 t1 cy1|w fn pc s1|o].
-    - destruct H as [t2 [Ht H]]. unfold keep_all in Ht. rewrite !filter_true in Ht.
-      subst t2. exact H.
+    - destruct H as [t2 [Ht H]]. apply Forall2_eq_eq in Ht. subst t2. exact H.
     - exact H.
     - symmetry. apply outcome_sim_all_eq. exact H.
   Qed.
@@ -1207,6 +1419,7 @@ Section Inline.
   Proof.
     intros dst body n sd sb Hd Hb Hne Hup Hcl Hfr post.
     apply block_spec_all. apply block_run.
+    - reflexivity.
     - apply rename_code_sim_strict; [apply suffix_inj_on|].
       intros m o p raw Hin Hm. apply in_app_or in Hin. destruct Hin as [Hin|[Hin|[]]].
       + exact (Hup m o p raw Hin Hm).
@@ -1218,6 +1431,8 @@ Section Inline.
 End Inline.
 Print Assumptions block_run.
 Print Assumptions push_code_run.
+Print Assumptions push_code_run_erased.
+Print Assumptions push_code_run_weak.
 Print Assumptions push_code_run_eq.
 
 (** * Non-vacuity: a body with a loop (backward branch), protected instructions and a jump to
@@ -1252,7 +1467,7 @@ Example ex_big_is_push_code :
   ex_big = [ SLbl "main"; SIns LDA (OImm (INum 1)) false "#1";
              SIns LDX (OImm (INum 3)) false "#3"; SLbl ".loopinline7";
              SIns DEX ONone true "";
-             SIns BNE (OLbl ".loopinline7") false ".loopinline7";
+             SIns BNE (OLbl ".loopinline7") true ".loopinline7";
              SIns JMP (OLbl ".endofinline7") false ".endofinline7";
              SIns LDX (OImm (INum 9)) false "#9"; SLbl ".endofinline7" ].
 Proof. split; vm_compute; reflexivity. Qed.
@@ -1293,12 +1508,25 @@ Proof. vm_compute. reflexivity. Qed.
 (** the inlined block inside the big code, followed by an [RTS] *)
 Example ex_inlined :
   run ex_cfg [] ex_none ex_none 100 "main" (ex_big ++ ex_post) 2 [] ex_s0 [] 0%N
-  = Halt ex_s1 [EvI DEX ""; EvI DEX ""; EvI DEX ""] 25%N.
+  = Halt ex_s1 [EvI DEX ""; EvI BNE ".loopinline7"; EvI DEX ""; EvI BNE ".loopinline7";
+                EvI DEX ""; EvI BNE ".loopinline7"] 25%N.
+Proof. vm_compute. reflexivity. Qed.
+
+(** the protected branch of the body is still protected in the expansion: its events are in the
+    trace, with the suffixed operand text; the arrival after [.endofinline7] *)
+Example ex_inlined_arrival :
+  run ex_cfg [] ex_none ex_none 100 "main" (ex_big ++ ex_post) 2 [] ex_s0 [] 0%N
+  = run ex_cfg [] ex_none ex_none 88 "main" (ex_big ++ ex_post) 9 [] ex_s1
+        [EvI BNE ".loopinline7"; EvI DEX ""; EvI BNE ".loopinline7"; EvI DEX "";
+         EvI BNE ".loopinline7"; EvI DEX ""] 19%N.
 Proof. vm_compute. reflexivity. Qed.
 
 (** what [push_code_run] says about it *)
 Example ex_push_code_run :
-  exists tr'', filter keep_nonjump tr'' = [EvI DEX ""; EvI DEX ""; EvI DEX ""] /\
+  exists tr'',
+    tsim (ev_ren (suffix_of 7))
+         [EvI BNE ".loop"; EvI DEX ""; EvI BNE ".loop"; EvI DEX ""; EvI BNE ".loop"; EvI DEX ""]
+         tr'' /\
     run ex_cfg [] ex_none ex_none 100 "main" (ex_big ++ ex_post) 2 [] ex_s0 [] 0%N
     = run ex_cfg [] ex_none ex_none 88 "main" (ex_big ++ ex_post) 9 [] ex_s1 tr'' 19%N.
 Proof.
